@@ -15,6 +15,11 @@ import PydjinniModel.Props.C17
                                   documented API sequence on the options dict its `-o` texts denote: same exit status / first
                                   exception, same effects
 * `cli_unlisted_target_generates_nothing`   where they differ: the CLI looks up all target names before generating any
+* `front_recorded_error_reported`, `front_syntax_error_exit`   once the lexer / parser (or the visitor) has recorded an error, **no**
+                                  failure class of the visitor on the recovered tree changes the verdict: the front end ends with
+                                  the list of recorded errors, and the command line with the code of the first one, no traceback
+* `front_crash_only_unrecorded`   the front end's verdict is an undocumented exception only if reading the file, or the visitor on a
+                                  tree without any recorded error, or a phase after it failed with a class the outer clauses do not know
 -/
 namespace Pydjinni.Sys
 
@@ -268,6 +273,112 @@ theorem cli_unlisted_target_generates_nothing (inv : Invocation) (w : World) (cl
   unfold cliStages
   simp only [hcmd, hunknown]
   exact key [_, _, _, _, _, _, _, _] _ (by intro s hs; simp at hs; rcases hs with rfl | rfl | rfl | rfl | rfl | rfl | rfl | rfl <;> rfl)
+
+/-! ### the front end after a syntax error -/
+
+/-- with a recorded error, whatever exception class the visitor fails with on the recovered tree (`cls` is universally
+quantified: `AttributeError` on a missing node, a pydantic `ValidationError` on a half-built declaration, `OSError` on a
+swallowed path, …) the verdict is the list of recorded errors -/
+theorem front_recorded_error_reported (f : FrontRun) (c : Nat) (cs : List Nat) (hread : f.read = none)
+    (hrec : f.recorded = c :: cs) (hvisit : ∀ code, f.visit ≠ .app code) (hpost : f.post = .done) :
+    frontOf f = .raised (.appList (c :: cs ++ f.later)) := by
+  unfold frontOf
+  rw [hread]
+  have hne : f.recorded.isEmpty = false := by rw [hrec]; rfl
+  have hafter : afterVisit f = .raised (.appList (c :: cs ++ f.later)) := by
+    simp [afterVisit, hpost, listOrOk, hrec]
+  cases hv : f.visit with
+  | done => simpa using hafter
+  | app code => exact absurd hv (hvisit code)
+  | failed cls => simp [hne, hafter]
+
+/-- … and the command line ends with the documented code of the first recorded error, without a traceback, provided the
+stages before the front end passed -/
+theorem front_syntax_error_exit (inv : Invocation) (w : World) (f : FrontRun) (c : Nat) (cs : List Nat) (clean : Bool)
+    (targets : List String) (opts t : Kids) (cts : List TargetDef)
+    (htop : inv.topOk = true) (hcmd : inv.command = .generate true clean targets) (hne : targets ≠ [])
+    (hopts : optionsStage inv = .ok opts) (hconf : configureOutcome inv w = .ok t) (hready : readyOutcome inv w = .ok cts)
+    (hfront : w.front = frontOf f)
+    (hread : f.read = none) (hrec : f.recorded = c :: cs) (hvisit : ∀ code, f.visit ≠ .app code) (hpost : f.post = .done) :
+    exitOf (cliStages inv w) = ⟨c, false⟩ := by
+  have hne' : targets.isEmpty = false := by cases targets <;> simp_all
+  have hf := front_recorded_error_reported f c cs hread hrec hvisit hpost
+  unfold cliStages
+  simp [hcmd, htop, hne', hopts, hconf, hready, hfront, hf, exitOf, ofOutcome, handler]
+
+def Step.known : Step → Bool
+  | .done => true
+  | .app _ => true
+  | .failed cls => cls == "FileNotFoundError" || cls == "IsADirectoryError" || cls == "UnicodeDecodeError" || cls == "RecursionError"
+
+theorem outerHandler_documented (rec : List Nat) (cls : String) (h : (Step.failed cls).known = true) :
+    (outerHandler rec cls).documented = true := by
+  unfold outerHandler
+  simp only [Step.known, Bool.or_eq_true, beq_iff_eq] at h
+  split
+  · rfl
+  · split
+    · cases rec <;> simp [StageResult.documented, Raised.documented]
+    · rename_i h1 h2
+      simp only [Bool.or_eq_true, beq_iff_eq] at h1 h2
+      rcases h with ((h | h) | h) | h <;> simp_all
+
+theorem listOrOk_documented (l : List Nat) : (listOrOk l).documented = true := by
+  unfold listOrOk
+  split
+  · rfl
+  · rename_i h; cases l <;> simp_all [StageResult.documented, Raised.documented]
+
+/-- the verdict is an exception class `main` does not know **only if** reading failed with an unknown class, or a phase after the
+visitor did, or the visitor failed with an unknown class although nothing had been recorded -/
+theorem front_crash_only_unrecorded (f : FrontRun) (h : (frontOf f).documented = false) :
+    (∃ cls, f.read = some cls ∧ (Step.failed cls).known = false) ∨ f.post.known = false
+      ∨ (f.recorded = [] ∧ f.visit.known = false) := by
+  have hafter : f.post.known = true → (afterVisit f).documented = true := by
+    intro hp
+    unfold afterVisit
+    cases hpost : f.post with
+    | done => exact listOrOk_documented _
+    | app c => rfl
+    | failed cls => rw [hpost] at hp; exact outerHandler_documented _ _ hp
+  unfold frontOf at h
+  cases hread : f.read with
+  | some cls =>
+    left
+    refine ⟨cls, rfl, ?_⟩
+    rw [hread] at h
+    cases hk : (Step.failed cls).known with
+    | false => rfl
+    | true => simp [outerHandler_documented [] cls hk] at h
+  | none =>
+    right
+    rw [hread] at h
+    cases hpk : f.post.known with
+    | false => left; rfl
+    | true =>
+      right
+      have ha := hafter hpk
+      cases hv : f.visit with
+      | done => rw [hv] at h; simp [ha] at h
+      | app c => rw [hv] at h; simp [StageResult.documented, Raised.documented] at h
+      | failed cls =>
+        rw [hv] at h
+        cases hrec : f.recorded with
+        | cons c cs => simp [hrec, ha] at h
+        | nil =>
+          refine ⟨rfl, ?_⟩
+          cases hk : (Step.failed cls).known with
+          | false => rfl
+          | true => simp [hrec, outerHandler_documented [] cls hk] at h
+
+/-- the hypotheses are satisfiable, and the verdict does not depend on the visitor's failure class: `property : i32;`
+(a syntax error, then a pydantic `ValidationError` in the visitor) and `@import "x` swallowing 300 characters (`OSError`) -/
+example : frontOf { syntaxErrors := [150], visit := .failed "ValidationError" } = .raised (.appList [150])
+    ∧ frontOf { syntaxErrors := [150, 150], visit := .failed "OSError", later := [170] } = .raised (.appList [150, 150, 170])
+    ∧ frontOf { visitErrors := [2], visit := .failed "AttributeError" } = .raised (.appList [2])
+    ∧ frontOf { visit := .failed "OSError" } = .raised (.other "OSError")
+    ∧ frontOf { read := some "UnicodeDecodeError" } = .raised (.appList [150])
+    ∧ frontOf { read := some "IsADirectoryError" } = .raised (.app 2) := by decide
 
 /-- hypotheses of `cli_eq_api` and of `never_traceback_partial` are satisfiable: `-o generate.cpp.out=o generate x.djinni cpp` -/
 example : ∃ inv w, wellFormed inv ∧ cliDom inv w = true ∧ exitOf (cliStages inv w) = ⟨0, false⟩
